@@ -120,14 +120,17 @@ impl EventGen for Container {
     ) -> Result<(OutputList, Option<BoundingBox>)> {
         if let Some(inner_events) = self.0.inner_events(context) {
             // If there's only text/cdata events, apply to current element and render
-            let mut inner_text = None;
+            let mut inner_text: Option<String> = None;
+            let has_cdata = inner_events.iter().any(|e| e.cdata_string().is_some());
             for e in inner_events.iter() {
+                // Text and CDATA sections can alternate; all of it is the content, other
+                // than the white space which surrounds a CDATA section on lines of its own.
                 if let Some(t) = e.text_string() {
-                    if inner_text.is_none() {
-                        inner_text = Some(t);
+                    if !(has_cdata && t.trim().is_empty()) {
+                        inner_text.get_or_insert_with(String::new).push_str(&t);
                     }
                 } else if let Some(c) = e.cdata_string() {
-                    inner_text = Some(c);
+                    inner_text.get_or_insert_with(String::new).push_str(&c);
                 } else {
                     // not text or cdata - abandon the effort and mark as such.
                     inner_text = None;
